@@ -39,7 +39,7 @@ CHECKS = {
    note="offsets and regenerated sizes come from decoder events (hook H3), the decode result is independently confirmed by libzstd", technique=TECH),
 
  "C01": dict(level=MC, design="5/C01",
-   text="ZstdFrames.tla is the format as abstract syntax with its meaning (Exec over literals and sequences, repeat-offset rule, per-frame format state); TLC enumerates frames built from a default compressed block by one or two deviations per block (all literal kinds and size formats, 0..3 sequences, all mode triples incl. repeat modes, repeat-offset codes with and without literals, overlapping copies, raw/RLE/empty blocks, header variants) with the specified content; the harness serialises each with its own bit packers (accepted only where libzstd agrees with the specification) and decodes it through four entry points; random legal schedules over decodecorpus / libzstd (levels -5..22, window logs, long-distance mode, flags, flush patterns) / ruzstd frames with the original bytes as oracle; repeat-offset events of those decodes are row-checked against RepStep.",
+   text="ZstdFrames.tla is the format as abstract syntax with its meaning (Exec over literals and sequences, repeat-offset rule, per-frame format state); TLC enumerates frames built from a default compressed block by one or two deviations per block (all literal kinds and size formats, 0..3 sequences, all mode triples incl. repeat modes, repeat-offset codes with and without literals, overlapping copies, raw/RLE/empty blocks, header variants) with the specified content (deep tier: full products, upper code ranges, chains of three dependent blocks: 20 108 frames); SeqStream.tla specifies the sequences bitstream bit by bit and TLC decodes every distinct block stream of those frames, comparing with the sequences meant and with the real decoder's sequence events; the harness serialises each with its own bit packers (accepted only where libzstd agrees with the specification) and decodes it through four entry points; random legal schedules over decodecorpus / libzstd (levels -5..22, window logs, long-distance mode, flags, flush patterns) / ruzstd frames with the original bytes as oracle; repeat-offset events of those decodes are row-checked against RepStep.",
    note="exhaustive over the abstract feature graph with small sizes; byte contents and large sizes sampled; serializer trusted only where libzstd confirms", technique=TECH),
  "C03": dict(level="fault_enumeration", design="5/C03",
    text="Fault enumeration driven by the specifications: every valid frame enumerated by ZstdFrames.tla and every frame of the protocol model's sets is faulted at every byte position with seven fault values plus insertion/deletion, both synthetic dictionaries at every position and truncation length, seeded multi-byte mutations of real frames, the saved fuzz artefacts; each case through four entry points in a release build and a debug-assertion build, only Ok/Err allowed, then reset-and-reuse on a good frame; watchdog and allocator cap name the case on hang / runaway allocation; the ring-buffer operations and raw copies recorded during a sample of the cases are validated against RingIdx.tla (enabledness = preconditions of the unsafe methods, copies inside the allocation, reads of written cells only, no write into live data).",
